@@ -97,67 +97,114 @@ def _check_main(run, P):
     run.do(_reserved, run, P)
     run.do(_storage, run, P)
     run.do(_case_length, run, P)
+    run.do(_translate_path, run, P)
+    run.do(_maps_live, run, P)
+
+
+PROBE = [chr(i) for i in range(32, 127)] + list("\u00e9\u03b5\u00b2\ufb01\u0661\u0394\u2081\u00aa\u4e2d")
 
 
 def _charset(run, P):
+    """Which characters of a name survive into the identifier.  Two idioms are
+    understood: a comprehension that keeps the characters of a constant set,
+    and a regular-expression substitution whose (constant) pattern is
+    evaluated on a probe alphabet of ASCII and non-ASCII word characters."""
+    import re as _re
     m = P.module(UTILS)
     f = P.func(f"{UTILS}.make_identifier_from_name")
-    # the filter predicate
-    comps = [n for n in ast.walk(f.node) if isinstance(n, (ast.ListComp, ast.GeneratorExp))]
-    pred = None
+    comps = [n for n in ast.walk(f.node) if isinstance(n, (ast.ListComp, ast.GeneratorExp))
+             and isinstance(n.elt, ast.IfExp)]
+    subs = [n for n in ast.walk(f.node) if isinstance(n, ast.Call) and isinstance(n.func, ast.Attribute)
+            and n.func.attr == "sub"]
+    kept = None
     repl = None
-    for c in comps:
-        if isinstance(c.elt, ast.IfExp):
-            pred = c.elt.test
-            repl = c.elt.orelse
-            keep = c.elt.body
-    if pred is None:
-        raise AnalysisError("make_identifier_from_name: filter comprehension not found")
-    ok = False
+    site = f.node
     detail = ""
-    if isinstance(pred, ast.Compare) and len(pred.ops) == 1 and isinstance(pred.ops[0], ast.In) \
-            and isinstance(pred.comparators[0], ast.Name):
-        v = m.assigns.get(pred.comparators[0].id)
-        chars = None
-        if isinstance(v, ast.Call) and dotted(v.func) in ("set", "frozenset") and v.args:
-            chars = _eval_const_str(v.args[0], m)
-        elif v is not None:
-            chars = _eval_const_str(v, m)
-        if chars is None:
-            raise AnalysisError("make_identifier_from_name: character set is not a constant")
-        ok = set(chars) <= ALLOWED and set(string.ascii_lowercase) <= set(chars)
-        detail = f"|set|={len(set(chars))}, extra={sorted(set(chars) - ALLOWED)}"
-    else:
-        # str predicates are locale/Unicode aware
-        detail = f"predicate {norm(pred)} is not a membership test in a constant set"
-        if not any(isinstance(x, ast.Attribute) and x.attr in (
+    if comps:
+        c = comps[0]
+        pred, repl_n, keep = c.elt.test, c.elt.orelse, c.elt.body
+        site = pred
+        repl = repl_n.value if isinstance(repl_n, ast.Constant) and isinstance(keep, ast.Name) else None
+        if isinstance(pred, ast.Compare) and len(pred.ops) == 1 and isinstance(pred.ops[0], ast.In) \
+                and isinstance(pred.comparators[0], ast.Name):
+            v = m.assigns.get(pred.comparators[0].id)
+            chars = None
+            if isinstance(v, ast.Call) and dotted(v.func) in ("set", "frozenset") and v.args:
+                chars = _eval_const_str(v.args[0], m)
+            elif v is not None:
+                chars = _eval_const_str(v, m)
+            if chars is None:
+                raise AnalysisError("make_identifier_from_name: character set is not a constant")
+            kept = set(chars)
+            detail = f"{norm(pred)}, |set|={len(kept)}"
+        elif any(isinstance(x, ast.Attribute) and x.attr in (
                 "isalnum", "isalpha", "isdigit", "isidentifier", "isnumeric", "isdecimal",
-                "isascii", "islower", "isupper") for x in ast.walk(pred)):
-            raise AnalysisError(f"make_identifier_from_name: {detail}")
-    run.ob("C13.charset", f, pred, ok,
-           construct=f"kept characters: {norm(pred)} ({detail})",
-           why="str.isalnum()/isalpha() accept every Unicode letter and digit: 'k²' "
-               "would map to an identifier that neither Python nor Fortran accepts, "
-               "and NFKC-equivalent names would collide in Python")
-    ok = isinstance(repl, ast.Constant) and repl.value == "_" \
-        and isinstance(keep, ast.Name)
-    run.ob("C13.charset", f, f.node, ok,
+                "islower", "isupper") for x in ast.walk(pred)):
+            kept = set(PROBE)          # str predicates accept every Unicode letter / digit
+            detail = f"predicate {norm(pred)} is Unicode aware"
+        else:
+            raise AnalysisError(f"make_identifier_from_name: predicate {norm(pred)} not understood")
+    elif subs:
+        call = subs[0]
+        site = call
+        pat = flags = None
+        if dotted(call.func.value) in ("re", "_re") and len(call.args) >= 3:
+            pat, repl_n = call.args[0], call.args[1]
+            flags = kwarg(call, "flags") or (call.args[4] if len(call.args) > 4 else None)
+        else:
+            repl_n = call.args[0] if call.args else None
+            src = call.func.value
+            comp = m.assigns.get(src.id) if isinstance(src, ast.Name) else src
+            if isinstance(comp, ast.Call) and (dotted(comp.func) or "").endswith("compile") and comp.args:
+                pat = comp.args[0]
+                flags = comp.args[1] if len(comp.args) > 1 else kwarg(comp, "flags")
+        pat_s = _eval_const_str(pat, m) if pat is not None else None
+        if pat_s is None:
+            raise AnalysisError("make_identifier_from_name: substitution pattern is not a constant")
+        fl = 0
+        if flags is not None:
+            for x in ast.walk(flags):
+                if isinstance(x, ast.Attribute) and x.attr in ("ASCII", "A"):
+                    fl |= _re.ASCII
+                elif isinstance(x, ast.Attribute) and x.attr in ("IGNORECASE", "I"):
+                    fl |= _re.IGNORECASE
+        rx = _re.compile(pat_s, fl)
+        kept = {c_ for c_ in PROBE if not rx.fullmatch(c_)}
+        repl = repl_n.value if isinstance(repl_n, ast.Constant) else None
+        detail = f"pattern {pat_s!r} flags={'ASCII' if fl & _re.ASCII else 'none'}"
+    else:
+        raise AnalysisError("make_identifier_from_name: neither a filter comprehension nor a "
+                            "substitution found")
+    ok = kept <= ALLOWED and set(string.ascii_lowercase) <= kept
+    run.ob("C13.charset", f, site, ok,
+           construct=f"kept characters ({detail}): outside [A-Za-z0-9_]: "
+                     f"{sorted(kept - ALLOWED)[:6]}",
+           why="str.isalnum(), \\w and \\W without re.ASCII accept every Unicode letter and "
+               "digit: 'k\u00b2' would map to an identifier that neither Python nor Fortran "
+               "accepts, and NFKC-equivalent names would collide in Python")
+    run.ob("C13.charset", f, f.node, repl == "_",
            construct="every other character is replaced by '_'",
            why="replacement must itself be an identifier character")
-    from .util import find, has
-    run.ob("C13.charset", f, f.node, has("V_r = V_r.lstrip('_')", f.node),
+    strips = [x for x in ast.walk(f.node) if isinstance(x, ast.Call) and isinstance(x.func, ast.Attribute)
+              and x.func.attr == "lstrip" and len(x.args) == 1 and string_value(x.args[0]) == "_"]
+    run.ob("C13.charset", f, f.node, bool(strips),
            construct="leading underscores are stripped",
            why="the persistent tags '<p>' etc. must sanitise to a letter-initial "
                "string; C13.prefix relies on it")
-    ok = False
-    for n in ast.walk(f.node):
-        if isinstance(n, ast.If) and isinstance(n.test, ast.UnaryOp) \
-                and isinstance(n.test.op, ast.Not) and isinstance(n.test.operand, ast.Name) \
-                and any(has(f"{n.test.operand.id} = default_identifier", s_) for s_ in n.body) \
-                and any(isinstance(r_, ast.Return) and dotted(r_.value) == n.test.operand.id
-                        for r_ in ast.walk(f.node)):
-            ok = True
     a = f.node.args
+    dparam = a.args[-1].arg if a.defaults else None
+    ok = False
+    if dparam:
+        for n in ast.walk(f.node):
+            # `if not r: r = default`   or   `return r or default`
+            if isinstance(n, ast.If) and isinstance(n.test, ast.UnaryOp) \
+                    and isinstance(n.test.op, ast.Not) and isinstance(n.test.operand, ast.Name) \
+                    and any(isinstance(s_, ast.Assign) and dotted(s_.value) == dparam
+                            and dotted(s_.targets[0]) == n.test.operand.id for s_ in n.body):
+                ok = True
+            if isinstance(n, ast.Return) and isinstance(n.value, ast.BoolOp) \
+                    and isinstance(n.value.op, ast.Or) and dotted(n.value.values[-1]) == dparam:
+                ok = True
     dflt = a.defaults[-1] if a.defaults else None
     dval = string_value(dflt) if dflt is not None else None
     run.ob("C13.charset", f, f.node, ok and bool(dval) and dval[0].isalpha()
@@ -669,6 +716,118 @@ def _case_length(run, P):
                "maps to an 86-character identifier that gfortran rejects")
 
 
+def _translate_path(run, P):
+    """Every name handed to the underlying unique-name generator went through the
+    translation function the map was built with (which is where the Fortran
+    manager folds case), whichever entry point was used."""
+    m = P.module(UTILS)
+    K = m.classes["KeyToUniqueNameMap"]
+    init = K.methods["__init__"]
+    if "key_translate_func" not in init.params or "name_generator" not in init.params:
+        raise AnalysisError("KeyToUniqueNameMap.__init__: key_translate_func / name_generator expected")
+    # roles of attributes: GEN raw generator, TR translate function, TGEN translating callable
+    roles = {}          # (class name, attr) -> role
+    prole = {("KeyToUniqueNameMap", "key_translate_func"): "TR",
+             ("KeyToUniqueNameMap", "name_generator"): "GEN"}
+    changed = True
+    n_iter = 0
+    while changed and n_iter < 6:
+        changed = False
+        n_iter += 1
+        for c in m.classes.values():
+            ci = c.methods.get("__init__")
+            if ci is None:
+                continue
+            for s_ in ast.walk(ci.node):
+                if not (isinstance(s_, ast.Assign) and len(s_.targets) == 1):
+                    continue
+                t = dotted(s_.targets[0])
+                if not t or not t.startswith("self."):
+                    continue
+                v = s_.value
+                role = None
+                if isinstance(v, ast.Name) and (c.name, v.id) in prole:
+                    role = prole[(c.name, v.id)]
+                elif isinstance(v, ast.Call) and dotted(v.func) in m.classes:
+                    w = m.classes[dotted(v.func)]
+                    wi = w.methods.get("__init__")
+                    if wi is not None:
+                        for k, a in enumerate(v.args):
+                            if isinstance(a, ast.Name) and (c.name, a.id) in prole and k + 1 < len(wi.params):
+                                key = (w.name, wi.params[k + 1])
+                                if prole.get(key) != prole[(c.name, a.id)]:
+                                    prole[key] = prole[(c.name, a.id)]
+                                    changed = True
+                        role = "TGEN"
+                if role and roles.get((c.name, t[5:])) != role:
+                    roles[(c.name, t[5:])] = role
+                    changed = True
+    n = 0
+    for c in m.classes.values():
+        for name, f in sorted(c.methods.items()):
+            for x in ast.walk(f.node):
+                if not (isinstance(x, ast.Call) and x.args):
+                    continue
+                d = dotted(x.func)
+                role = None
+                if d and d.startswith("self.") and (c.name, d[5:]) in roles:
+                    role = roles[(c.name, d[5:])]
+                elif isinstance(x.func, ast.Name) and (c.name, x.func.id) in prole and name == "__init__":
+                    role = prole[(c.name, x.func.id)]
+                if role != "GEN":
+                    continue
+                n += 1
+                arg = x.args[0]
+                tr_calls = [y for y in ast.walk(arg) if isinstance(y, ast.Call) and (
+                    (dotted(y.func) or "").startswith("self.") and roles.get((c.name, dotted(y.func)[5:])) == "TR"
+                    or (isinstance(y.func, ast.Name) and prole.get((c.name, y.func.id)) == "TR"))]
+                run.ob("C13.case", f, x, bool(tr_calls),
+                       construct=f"{c.name}.{name}: the name handed to the generator is translated by "
+                                 f"the map's own function ({norm(x, 60)})",
+                       why="a path that sanitises with the module default instead skips what the "
+                           "owner configured - the Fortran manager's case folding: 'rhs' and "
+                           "'RHS' then get two identifiers that Fortran cannot tell apart")
+    if n < 1:
+        raise AnalysisError("KeyToUniqueNameMap: no call of the underlying name generator found")
+
+
+def _maps_live(run, P):
+    """A name map that shares a long-lived generator is never replaced or
+    emptied: the generator would still reserve the forgotten identifiers, and
+    the same IR name would get a new one."""
+    for cls_fq in ("dagrt.codegen.fortran.FortranNameManager", "dagrt.codegen.python.PythonNameManager"):
+        C = P.cls(cls_fq)
+        init = C.methods["__init__"]
+        maps = {}
+        for s_ in ast.walk(init.node):
+            if isinstance(s_, ast.Assign) and isinstance(s_.value, ast.Call) \
+                    and dotted(s_.value.func) == "KeyToUniqueNameMap":
+                maps[dotted(s_.targets[0])] = s_.value
+        bad = []
+        for name, f in sorted(C.methods.items()):
+            if name == "__init__":
+                continue
+            for x in ast.walk(f.node):
+                if isinstance(x, ast.Assign) and any(dotted(t) in maps for t in x.targets):
+                    v = x.value
+                    own_gen = isinstance(v, ast.Call) and dotted(v.func) == "KeyToUniqueNameMap" \
+                        and kwarg(v, "name_generator") is None
+                    if not own_gen:
+                        bad.append((f, x, f"{name} re-binds {norm(x.targets[0])} to a map that shares "
+                                          f"the manager's generator"))
+                if isinstance(x, ast.Call) and isinstance(x.func, ast.Attribute) \
+                        and x.func.attr in ("clear", "pop", "popitem") \
+                        and any((dotted(x.func.value) or "").startswith(mp) for mp in maps):
+                    bad.append((f, x, f"{name} empties {norm(x.func.value)}"))
+        run.ob("C13.memo", bad[0][0] if bad else init, bad[0][1] if bad else init.node, not bad,
+               construct=f"{C.name}: a map is replaced only together with its generator "
+                         f"({bad[0][2] if bad else 'no re-binding of a map that shares a generator'})",
+               why="after forgetting a key whose identifier the shared generator still reserves, "
+                   "the next lookup of the same name returns another identifier: "
+                   "dagrt_time_final becomes the undeclared dagrt_time_final_0 in the second "
+                   "phase function")
+
+
 def _has_length_bound(f: Func):
     for n in ast.walk(f.node):
         if isinstance(n, ast.Subscript) and isinstance(n.slice, ast.Slice) \
@@ -681,6 +840,6 @@ def _has_length_bound(f: Func):
 
 
 def check(run, P):
-    _check_main(run, P)
+    run.do(_check_main, run, P)
     from . import generic
     generic.lints(run, P, "C13")
